@@ -459,3 +459,39 @@ def run_isolated(fn):
     if not data:
         return ('crash', 'exit %d' % os.WEXITSTATUS(status), '')
     return pickle.loads(data)
+
+
+def write_h5ad_multi(path, layers, obs_names=None, var_names=None):
+    """h5ad with several matrices of one shape: layers maps None (= X) or a
+    layer name to (dense numpy matrix, encoding in dense|csr|csc).  Without an
+    entry for None, X is an all-zero CSR placeholder."""
+    import anndata
+    import pandas as pd
+    import scipy.sparse
+
+    def enc(X, encoding):
+        if encoding == 'csr':
+            return scipy.sparse.csr_matrix(X)
+        if encoding == 'csc':
+            return scipy.sparse.csc_matrix(X)
+        return np.asarray(X)
+
+    any_x = next(iter(layers.values()))[0]
+    n, m = any_x.shape
+    obs = pd.DataFrame(index=pd.Index(
+        obs_names if obs_names is not None else ['c%d' % i for i in range(n)],
+        name='cell_id'))
+    var = pd.DataFrame(index=pd.Index(
+        var_names if var_names is not None else ['g%d' % j for j in range(m)],
+        name='gene_id'))
+    with warnings.catch_warnings():
+        warnings.simplefilter('ignore')
+        if None in layers:
+            x = enc(*layers[None])
+        else:
+            x = scipy.sparse.csr_matrix((n, m), dtype=np.float32)
+        a = anndata.AnnData(
+            X=x, obs=obs, var=var,
+            layers={k: enc(*v) for k, v in layers.items() if k is not None})
+        a.write_h5ad(path)
+    return path
